@@ -800,7 +800,10 @@ class Config(DataProxy):
         .. versionadded:: 1.0
         """
         # Force merge of existing data to ensure we have an up to date picture
+        # (minus any previously loaded env level: what it held must not count
+        # as "known config keys" for this load.)
         debug("Running pre-merge for shell env loading...")
+        self._set(_env={})
         self.merge()
         debug("Done with pre-merge.")
         loader = Environment(config=self._config, prefix=self._env_prefix)
